@@ -17,6 +17,7 @@ type c12Spec struct {
 	Format int  `json:"format"` // hermes.DateFormat
 	Split  int  `json:"split"`  // DivideCentury (short formats)
 	Sep    bool `json:"sep"`    // text written with separators
+	Hist   bool `json:"hist,omitempty"` // call-history family: one converter instance used for sequences of dates
 }
 
 func c12Text(f hermes.DateFormat, t time.Time, sep bool) string {
@@ -43,9 +44,10 @@ func init() {
 		ID:        "C12",
 		Technique: "exhaustive enumeration of the finite input space of the real conversion functions against Go's time package",
 		Rule: "one scenario per (format, century split, separator variant); inside it every calendar date of the range the format can express unambiguously is converted text->number->text; " +
+			"history scenario = the converter closures as state machines: every listed call sequence on one instance must answer like a fresh instance; " +
 			"a case is one (date, format, split, separator) tuple; all are distinct; non-trivial = leap-day, year-boundary and century-boundary dates",
 		Assumptions: []string{"Go's time package is the reference calendar", "short formats: years 1900+split .. 1999+split (clipped to 1901..2099), the window in which a two-digit year is unambiguous"},
-		Bound:       func(string) string { return "all 72684 dates 1901-01-01..2099-12-31; long formats x {sep, nosep}; short formats x splits 0..100 x {sep, nosep} (both tiers identical: the space is finite)" },
+		Bound:       func(string) string { return "all 72684 dates 1901-01-01..2099-12-31; long formats x {sep, nosep}; short formats x splits 0..100 x {sep, nosep} (both tiers identical: the space is finite); call histories on one converter instance: all sequences of 3 over the boundary dates (1 Jan, 28/29 Feb, 1 Mar, 31 Dec of up to 14 boundary years), all pairs of month-boundary dates of those years, descending and zig-zag sweeps of all dates, for 4 formats (short formats x splits 0, 50, 100)" },
 		Scenarios: func(tier string, seed int) []json.RawMessage {
 			var s []c12Spec
 			for _, f := range []hermes.DateFormat{hermes.DateDElong, hermes.DateENlong} {
@@ -60,6 +62,17 @@ func init() {
 					}
 				}
 			}
+			// call histories: the converters are closures; every sequence of up to three boundary dates (and every
+			// pair of month-boundary dates, a descending and a zig-zag sweep of all dates) on ONE instance must give
+			// what a fresh instance gives
+			for _, f := range []hermes.DateFormat{hermes.DateDElong, hermes.DateENlong, hermes.DateDEshort, hermes.DateENshort} {
+				for _, split := range []int{0, 50, 100} {
+					if (f == hermes.DateDElong || f == hermes.DateENlong) && split != 50 {
+						continue
+					}
+					s = append(s, c12Spec{Format: int(f), Split: split, Sep: true, Hist: true})
+				}
+			}
 			return mc.Specs(s)
 		},
 		Run: c12Run,
@@ -68,6 +81,10 @@ func init() {
 
 func c12Run(raw json.RawMessage, c *mc.Ctx) {
 	sp := mc.Decode[c12Spec](raw)
+	if sp.Hist {
+		c12Hist(sp, c)
+		return
+	}
 	f := hermes.DateFormat(sp.Format)
 	long := f == hermes.DateDElong || f == hermes.DateENlong
 	conv := hermes.DateConverter(sp.Split, f)
@@ -136,4 +153,101 @@ func c12Run(raw json.RawMessage, c *mc.Ctx) {
 	}
 	c.Sample(map[string]interface{}{"format": f.String(), "split": sp.Split, "sep": sp.Sep, "first": c12Text(f, time.Date(lo, 1, 1, 0, 0, 0, 0, time.UTC), sp.Sep), "last": c12Text(f, time.Date(hi, 12, 31, 0, 0, 0, 0, time.UTC), sp.Sep)})
 	c.Outcome("ok")
+}
+
+// c12Hist treats the two converter closures as state machines: operation = "convert date d"; every sequence of the
+// stated shape is executed on one instance and each answer is compared with the answer of a fresh instance.
+func c12Hist(sp c12Spec, c *mc.Ctx) {
+	f := hermes.DateFormat(sp.Format)
+	long := f == hermes.DateDElong || f == hermes.DateENlong
+	lo, hi := 1901, 2099
+	if !long {
+		lo, hi = max(1901, 1900+sp.Split), min(2099, 1999+sp.Split)
+	}
+	epoch := time.Date(1900, 12, 31, 0, 0, 0, 0, time.UTC)
+	type dt struct {
+		txt  string
+		num  int
+		doy  int
+		back string
+	}
+	mk := func(t time.Time) dt {
+		return dt{c12Text(f, t, sp.Sep), int(t.Sub(epoch).Hours() / 24), t.YearDay(), c12Text(f, t, true)}
+	}
+	// boundary years of the window: first, last, around 1999/2000/2001, leap and non-leap neighbours
+	yearSet := map[int]bool{}
+	for _, y := range []int{lo, lo + 1, lo + 3, 1904, 1950, 1996, 1999, 2000, 2001, 2004, 2050, 2096, hi - 1, hi} {
+		if y >= lo && y <= hi {
+			yearSet[y] = true
+		}
+	}
+	var small, months []dt
+	for y := lo; y <= hi; y++ {
+		if !yearSet[y] {
+			continue
+		}
+		for _, md := range [][2]int{{1, 1}, {2, 28}, {2, 29}, {3, 1}, {12, 31}} {
+			t := time.Date(y, time.Month(md[0]), md[1], 0, 0, 0, 0, time.UTC)
+			if int(t.Month()) != md[0] {
+				continue // 29 February of a non-leap year
+			}
+			small = append(small, mk(t))
+		}
+		for m := 1; m <= 12; m++ {
+			months = append(months, mk(time.Date(y, time.Month(m), 1, 0, 0, 0, 0, time.UTC)), mk(time.Date(y, time.Month(m)+1, 0, 0, 0, 0, 0, time.UTC)))
+		}
+	}
+	bad := 0
+	runSeq := func(seq []dt, what string) {
+		conv := hermes.DateConverter(sp.Split, f)
+		back := hermes.KalenderConverter(f, ".")
+		c.Trace(1)
+		for i, d := range seq {
+			doy, num := conv(d.txt)
+			got := back(d.num)
+			c.Transition(1)
+			c.Eval(1)
+			if (num != d.num || doy != d.doy || got != d.back) && bad < 5 {
+				bad++
+				var hist []string
+				for _, h := range seq[:i] {
+					hist = append(hist, h.back)
+				}
+				c.Violate(fmt.Sprintf("history-dependent-conversion fmt=%v", f), fmt.Sprintf("%s: after converting %v with the same converter (format %v split %d): %s -> number %d doy %d (calendar %d, %d); number %d -> %q (calendar %q)", what, hist, f, sp.Split, d.txt, num, doy, d.num, d.doy, d.num, got, d.back), nil)
+			}
+		}
+	}
+	for _, a := range small {
+		for _, b := range small {
+			for _, d := range small {
+				runSeq([]dt{a, b, d}, "sequence of three")
+			}
+		}
+	}
+	for _, a := range months {
+		for _, b := range months {
+			runSeq([]dt{a, b}, "pair")
+		}
+	}
+	// whole-range sweeps on one instance: descending and zig-zag (ends towards the middle)
+	var all []dt
+	for t := time.Date(lo, 1, 1, 0, 0, 0, 0, time.UTC); t.Year() <= hi; t = t.AddDate(0, 0, 1) {
+		all = append(all, mk(t))
+	}
+	desc := make([]dt, len(all))
+	zig := make([]dt, 0, len(all))
+	for i := range all {
+		desc[len(all)-1-i] = all[i]
+	}
+	for i, j := 0, len(all)-1; i <= j; i, j = i+1, j-1 {
+		zig = append(zig, all[j], all[i])
+	}
+	runSeq(desc, "descending sweep")
+	runSeq(zig, "zig-zag sweep")
+	h := mc.NewHasher().S("hist").I(sp.Format).I(sp.Split).Sum()
+	c.State(h)
+	c.NonTrivial(h)
+	c.Count("history_sequences", len(small)*len(small)*len(small)+len(months)*len(months)+2)
+	c.Sample(map[string]interface{}{"format": f.String(), "split": sp.Split, "history_alphabet": len(small), "pair_alphabet": len(months)})
+	c.Outcome("ok-history")
 }
